@@ -10,7 +10,7 @@ from impl_dsm import Recorder, frac, make_dims, make_prm, nums, scramble
 from proto import REPO
 
 sys.path.insert(0, REPO)
-from flodym import StockArray  # noqa: E402
+from flodym import StockArray, FlodymArray, Dimension, DimensionSet  # noqa: E402
 from flodym import lifetime_models as lm_mod  # noqa: E402
 from flodym.lifetime_models import UnevenTimeDim  # noqa: E402
 from flodym.mfa_definition import StockDefinition  # noqa: E402
@@ -115,6 +115,22 @@ def run_case(spec, lines, out):
                 stock.lifetime_model.set_prms(**g_)
                 scramble(g_)
                 emit(f"h_setprms {k_cur}", "ok")
+            elif op[0] == "setprms_fail":
+                j, mixed_k = op[1], op[2]
+                g_ = given(j)
+                names = list(spec["psets"][j].keys())
+                lm_ = stock.lifetime_model
+                before = {n_: np.array(v_, copy=True) for n_, v_ in lm_.prms.items()}
+                foreign = FlodymArray(dims=DimensionSet(dim_list=[Dimension(letter="z", name="zz", items=["k", "l", "m"])]),
+                                      values=np.ones(3))
+                try:
+                    lm_.set_prms(**{names[0]: g_[names[0]], names[1]: foreign})
+                    raised = False
+                except Exception:
+                    raised = True
+                emit(f"h_setprms_fail {mixed_k}", "err" if raised else "ok")
+                same = all(np.array_equal(before[n_], np.asarray(lm_.prms[n_])) for n_ in before)
+                emit("note failed_set_prms_changes_nothing", "ok" if same else "CHANGED")
             elif op[0] == "setdriver":
                 drv = op[1]
                 target.values[...] = arr(drv)
@@ -178,7 +194,7 @@ def run_case(spec, lines, out):
                 f.compute()
                 emit("note fresh " + results(f, kind)[3:], "ok")
         except Exception:
-            emit(f"h_{op[0]}" if op[0] != "setprms" else f"h_setprms {op[1]}", "err")
+            emit(f"h_{op[0]}" if op[0] not in ("setprms", "setprms_fail") else f"h_{op[0]} {op[-1]}", "err")
 
 
 def run(specs):
